@@ -25,6 +25,8 @@ func init() {
 		Run: runC05,
 	})
 	addMutants("C05",
+		mutant{"waker slot accessor with a value receiver", "internal/eventfd.go",
+			"func (e *EventFd) Slot() *Slot {", "func (e EventFd) Slot() *Slot {", "C05-R6"},
 		mutant{"the last handler of a batch is skipped", "internal/poll_linux.go",
 			"\tfor _, handler := range posts {\n\t\thandler()\n\t\tatomic.AddInt64(&p.pending, -1)\n\t}", "\tfor i := 0; i < len(posts)-1; i++ {\n\t\tposts[i]()\n\t\tatomic.AddInt64(&p.pending, -1)\n\t}", "C05-R3"},
 		mutant{"handlers run under the mutex again", "internal/poll_linux.go",
